@@ -626,10 +626,17 @@ fn mutate(rng: &mut Rng, mut b: Vec<u8>) -> Vec<u8> {
     if b.is_empty() {
         return b;
     }
-    match rng.below(8) {
+    match rng.below(10) {
         0 => {
             let i = rng.below(b.len() as u64) as usize;
             b[i] ^= 1 << rng.below(8);
+        }
+        8 | 9 => {
+            // nudge a byte by a small amount (relative-jump offsets, vtable sizes, section indices
+            // move to the neighbouring value: jump into / just past an immediate)
+            let i = rng.below(b.len() as u64) as usize;
+            let d = *rng.pick(&[1u8, 2, 3, 4, 0xff, 0xfe, 0xfd, 0xfc]);
+            b[i] = b[i].wrapping_add(d);
         }
         1 => {
             let i = rng.below(b.len() as u64) as usize;
@@ -718,6 +725,269 @@ fn random_headerish(rng: &mut Rng) -> Vec<u8> {
     v
 }
 
+// ------------------------------------------------------------------ family "jump into immediates"
+//
+// Complete cross product, emitted on every run (independent of the budget):
+//   target instruction T with immediates (PUSH1/2/4/32, DATALOADN, RJUMP, RJUMPI, RJUMPV incl. its
+//     count byte and every table byte, CALLF, JUMPF, DUPN, SWAPN, EXCHANGE, EOFCREATE, RETURNCONTRACT;
+//     plus "bait" variants whose immediate bytes decode as RETF when jumped to)
+//   x jump source (RJUMP, RJUMPI, RJUMPV first entry, RJUMPV last entry; always TAKEN at run time)
+//   x direction (source before T = forward into a LATER instruction, source after T = backward)
+//   x (forward only) 0 / 1 filler instruction between source and T
+//   x landing byte: T's first byte (valid), every immediate byte (first / middle / last for long
+//     immediates), the byte right after T (valid).
+// Everything else about the container is valid (types, max stack height, terminators, accessed
+// sections / sub-containers), so the verdict hinges on the immediate bookkeeping alone:
+// forward => JumpToImmediateBytes (found when T's immediates are marked), backward =>
+// BackwardJumpToImmediateBytes, neighbours => ok (and the container is executed).
+
+struct Asm {
+    c: Vec<u8>,
+    h: i32,
+    peak: i32,
+}
+impl Asm {
+    fn op(&mut self, bytes: &[u8], ins: i32, outs: i32) {
+        assert!(self.h >= ins, "family: stack underflow in generator");
+        self.c.extend_from_slice(bytes);
+        self.h = self.h - ins + outs;
+        self.peak = self.peak.max(self.h);
+    }
+    fn push0(&mut self, n: i32) {
+        for _ in 0..n {
+            self.op(&[0x5f], 0, 1);
+        }
+    }
+}
+
+#[derive(Clone, Copy, PartialEq)]
+enum Aux {
+    None,
+    CallfSection,   // section 1 = RETF, types (0, 0, 0)
+    JumpfSection,   // section 1 = STOP, types (0, 0x80, 0)
+    InitSub,        // sub-container 0 = initcode container (EOFCREATE)
+    RuntimeSub,     // sub-container 0 = runtime container; this container is initcode (RETURNCONTRACT)
+}
+
+#[derive(Clone)]
+struct TSpec {
+    bytes: Vec<u8>,
+    ins: i32,
+    outs: i32,
+    terminating: bool,
+    /// T makes the byte after itself a jump destination (RJUMP +0)
+    self_access: bool,
+    aux: Aux,
+    data: usize,
+    /// NOPs right after T (room for the RJUMPV bait entry +228)
+    pad: usize,
+}
+
+fn t_specs() -> Vec<TSpec> {
+    let t = |bytes: Vec<u8>, ins: i32, outs: i32| TSpec {
+        bytes, ins, outs, terminating: false, self_access: false, aux: Aux::None, data: 0, pad: 0,
+    };
+    let mut push32 = vec![0x7fu8];
+    push32.extend((1..=32).map(|k| k as u8));
+    let mut push32_bait = vec![0x7fu8];
+    push32_bait.extend([0xe4u8; 32]);
+    vec![
+        t(vec![0x60, 0x11], 0, 1),
+        t(vec![0x60, 0xe4], 0, 1),
+        t(vec![0x61, 0x11, 0x22], 0, 1),
+        t(vec![0x61, 0xe4, 0xe4], 0, 1),
+        t(vec![0x63, 0xe4, 0x5b, 0x00, 0xe4], 0, 1),
+        t(push32, 0, 1),
+        t(push32_bait, 0, 1),
+        TSpec { data: 32, ..t(vec![0xd1, 0x00, 0x00], 0, 1) },
+        TSpec { data: 260, ..t(vec![0xd1, 0x00, 0xe4], 0, 1) },
+        TSpec { terminating: true, self_access: true, ..t(vec![0xe0, 0x00, 0x00], 0, 0) },
+        t(vec![0xe1, 0x00, 0x00], 1, 0),
+        t(vec![0xe2, 0x00, 0x00, 0x00], 1, 0),
+        t(vec![0xe2, 0x01, 0x00, 0x00, 0x00, 0x00], 1, 0),
+        // bait: entry 1 = +228 (0x00e4): its low byte is RETF, its high byte STOP
+        TSpec { pad: 232, ..t(vec![0xe2, 0x01, 0x00, 0x00, 0x00, 0xe4], 1, 0) },
+        TSpec { pad: 232, ..t(vec![0xe2, 0x02, 0x00, 0xe4, 0x00, 0x00, 0x00, 0xe4], 1, 0) },
+        TSpec { aux: Aux::CallfSection, ..t(vec![0xe3, 0x00, 0x01], 0, 0) },
+        TSpec { aux: Aux::JumpfSection, terminating: true, ..t(vec![0xe5, 0x00, 0x01], 0, 0) },
+        t(vec![0xe6, 0x00], 1, 2),
+        t(vec![0xe7, 0x00], 2, 2),
+        t(vec![0xe8, 0x00], 3, 3),
+        TSpec { aux: Aux::InitSub, ..t(vec![0xec, 0x00], 4, 1) },
+        TSpec { aux: Aux::RuntimeSub, terminating: true, ..t(vec![0xee, 0x00], 2, 0) },
+    ]
+}
+
+#[derive(Clone, Copy, PartialEq, Debug)]
+enum Src {
+    Rjump,
+    Rjumpi,
+    Rjumpv(u8), // which of the two table entries carries the jump under test
+}
+
+fn src_len(s: Src, forward: bool) -> usize {
+    match (s, forward) {
+        (Src::Rjump, true) => 7,
+        (Src::Rjump, false) => 3,
+        (Src::Rjumpi, _) => 5,
+        (Src::Rjumpv(_), _) => 8,
+    }
+}
+
+/// emit the jump source at the current position; `target` is the absolute landing offset
+fn emit_src(a: &mut Asm, s: Src, forward: bool, target: usize) {
+    let base = a.c.len() + src_len(s, forward);
+    let off = ((target as i64 - base as i64) as i16).to_be_bytes();
+    match (s, forward) {
+        (Src::Rjump, true) => {
+            // PUSH0 ; RJUMPI +3 (keeps the byte after the RJUMP reachable) ; RJUMP off
+            a.op(&[0x5f], 0, 1);
+            a.op(&[0xe1, 0x00, 0x03], 1, 0);
+            a.op(&[0xe0, off[0], off[1]], 0, 0);
+        }
+        (Src::Rjump, false) => a.op(&[0xe0, off[0], off[1]], 0, 0),
+        (Src::Rjumpi, _) => {
+            a.op(&[0x60, 0x01], 0, 1);
+            a.op(&[0xe1, off[0], off[1]], 1, 0);
+        }
+        (Src::Rjumpv(k), _) => {
+            a.op(&[0x60, k], 0, 1);
+            let (e0, e1) = if k == 0 { (off, [0, 0]) } else { ([0, 0], off) };
+            a.op(&[0xe2, 0x01, e0[0], e0[1], e1[0], e1[1]], 1, 0);
+        }
+    }
+}
+
+fn runtime_stop_container() -> Vec<u8> {
+    EofBody {
+        types_section: vec![TypesSection::new(0, 0x80, 0)],
+        code_section: vec![Bytes::from(vec![0x00u8])],
+        container_section: vec![],
+        data_section: Bytes::new(),
+        is_data_filled: true,
+    }
+    .into_eof()
+    .raw
+    .to_vec()
+}
+
+fn initcode_container() -> Vec<u8> {
+    EofBody {
+        types_section: vec![TypesSection::new(0, 0x80, 2)],
+        code_section: vec![Bytes::from(vec![0x5fu8, 0x5f, 0xee, 0x00])],
+        container_section: vec![Bytes::from(runtime_stop_container())],
+        data_section: Bytes::new(),
+        is_data_filled: true,
+    }
+    .into_eof()
+    .raw
+    .to_vec()
+}
+
+/// one member of the family; `delta` = landing offset relative to T's first byte
+fn family_container(t: &TSpec, s: Src, forward: bool, gap: usize, delta: usize) -> (&'static str, Vec<u8>) {
+    let tlen = t.bytes.len();
+    let mut a = Asm { c: vec![], h: 0, peak: 0 };
+    a.push0(t.ins);
+    let mut has_end = true;
+    if forward {
+        let tpos = a.c.len() + src_len(s, true) + gap;
+        emit_src(&mut a, s, true, tpos + delta);
+        for _ in 0..gap {
+            a.op(&[0x5b], 0, 0);
+        }
+        assert_eq!(a.c.len(), tpos);
+        a.op(&t.bytes, t.ins, t.outs);
+        if t.terminating && !t.self_access && delta != tlen {
+            // nothing reaches the byte after T: T is the last instruction
+            has_end = false;
+        } else {
+            for _ in 0..t.pad {
+                a.op(&[0x5b], 0, 0);
+            }
+        }
+    } else {
+        if t.terminating && !t.self_access {
+            // keep the byte after T reachable: PUSH0 ; RJUMPI over T
+            a.op(&[0x5f], 0, 1);
+            a.op(&[0xe1, 0x00, tlen as u8], 1, 0);
+        }
+        let tpos = a.c.len();
+        let h_before = a.h;
+        a.op(&t.bytes, t.ins, t.outs);
+        if t.terminating {
+            a.h = h_before; // the byte after T is reached by the jump over T / by T's own RJUMP +0
+        }
+        for _ in 0..t.pad {
+            a.op(&[0x5b], 0, 0);
+        }
+        if delta != tlen {
+            // back to the height at T's first byte (a backward jump needs equal heights)
+            while a.h > h_before {
+                a.op(&[0x50], 1, 0);
+            }
+            while a.h < h_before {
+                a.op(&[0x5f], 0, 1);
+            }
+        }
+        emit_src(&mut a, s, false, tpos + delta);
+        has_end = s != Src::Rjump;
+    }
+    let rc = t.aux == Aux::RuntimeSub;
+    if has_end {
+        a.op(&[if rc { 0xfe } else { 0x00 }], 0, 0);
+    }
+    let mut types = vec![TypesSection::new(0, 0x80, a.peak as u16)];
+    let mut codes = vec![Bytes::from(a.c)];
+    let mut conts = vec![];
+    match t.aux {
+        Aux::None => {}
+        Aux::CallfSection => {
+            types.push(TypesSection::new(0, 0, 0));
+            codes.push(Bytes::from(vec![0xe4u8]));
+        }
+        Aux::JumpfSection => {
+            types.push(TypesSection::new(0, 0x80, 0));
+            codes.push(Bytes::from(vec![0x00u8]));
+        }
+        Aux::InitSub => conts.push(Bytes::from(initcode_container())),
+        Aux::RuntimeSub => conts.push(Bytes::from(runtime_stop_container())),
+    }
+    let body = EofBody {
+        types_section: types,
+        code_section: codes,
+        container_section: conts,
+        data_section: Bytes::from((0..t.data).map(|k| k as u8).collect::<Vec<u8>>()),
+        is_data_filled: true,
+    };
+    (if rc { "rc" } else { "rs" }, body.into_eof().raw.to_vec())
+}
+
+/// the request lines of the family (validate + exec per container), in a fixed order
+pub fn family_lines() -> Vec<String> {
+    let mut lines = vec![];
+    for t in t_specs() {
+        let imm = t.bytes.len() - 1;
+        let mut deltas: Vec<usize> = if imm <= 7 {
+            (0..=imm + 1).collect()
+        } else {
+            vec![0, 1, 2, imm / 2, imm - 1, imm, imm + 1]
+        };
+        deltas.dedup();
+        for s in [Src::Rjump, Src::Rjumpi, Src::Rjumpv(0), Src::Rjumpv(1)] {
+            for (forward, gap) in [(true, 0usize), (true, 1), (false, 0)] {
+                for &d in &deltas {
+                    let (m, b) = family_container(&t, s, forward, gap, d);
+                    let h = hxb(&b);
+                    lines.push(format!("eof validate {m} {h}"));
+                    lines.push(format!("eof exec {m} {h}"));
+                }
+            }
+        }
+    }
+    lines
+}
+
 const MODES: [&str; 3] = ["rc", "rs", "none"];
 
 pub fn gen(seed: u64, n: usize) -> Vec<String> {
@@ -749,6 +1019,8 @@ pub fn gen(seed: u64, n: usize) -> Vec<String> {
         all(&mut lines, &mut rng, &b, true);
         lines.push(format!("eof dangling {h}"));
     }
+    // the complete "jump into immediates" family (every run)
+    lines.extend(family_lines());
     // stack-limit boundary (CALLF / JUMPF with callee max_stack 1023): 1024 is fine, 1025 is StackOverflow
     for pushes in [1usize, 2] {
         for jumpf in [false, true] {
@@ -879,9 +1151,14 @@ pub fn gen(seed: u64, n: usize) -> Vec<String> {
 }
 
 pub fn run(seed: u64, n: usize, replay: Option<Vec<String>>, out: &mut Out) {
+    let fam: std::collections::HashSet<String> =
+        if replay.is_none() { family_lines().into_iter().collect() } else { Default::default() };
     let lines = replay.unwrap_or_else(|| gen(seed, n));
     for l in lines {
         let r = exec_line(&l);
+        if fam.contains(&l) {
+            out.count(&format!("family:{}", r.split(" det=").next().unwrap_or("?")));
+        }
         let mut it = l.split(' ');
         let _ = it.next();
         let op = it.next().unwrap_or("?").to_string();
